@@ -263,6 +263,10 @@ def check_population(ctx, kind, card, counts):
         set_count(o, kind, n)
         objs.append(o)
     runs = [("default", Validation(doc).errors)]
+    try:
+        runs.append(("document.validate", list(doc.validate().errors)))      # the Document's own entry point: issues of its objects
+    except Exception as exc:
+        rec.violation("report/document.validate-raised-%s" % type(exc).__name__, repr(exc), case)
     # the same through a validation that also carries a rule of the user (registered on a plain, non-reset instance)
     v = Validation(doc, validate=False)
     try:
@@ -279,6 +283,12 @@ def check_population(ctx, kind, card, counts):
     for how, errors in runs:
         for o, n in zip(objs, counts):
             issues = [e for e in errors if e.obj is o and getattr(e.validation_id, "value", None) == issue_no]
+            if how == "document.validate":
+                if cm.violated(card, n) != bool(issues):
+                    rec.violation("report/%s:document.validate" % ("missing" if not issues else "spurious"),
+                                  "%s card %r count %d: Document.validate() %s issue %d for this object" % (
+                                      kind, card, n, "reports no" if not issues else "reports", issue_no), case)
+                continue
             if how != "default":
                 if cm.violated(card, n) and not issues:
                     rec.violation("report/missing:validation-with-user-rule", "%s card %r count %d: no issue %d once a user rule is registered" % (
